@@ -8,7 +8,7 @@ THEOREMS = [
     "Sb.C05.table_correct", "Sb.C05.update_eq_bitserial", "Sb.C05.update_split", "Sb.C05.update_splits",
     "Sb.C05.chunked_eq_whole", "Sb.C05.accept_rule", "Sb.C05.le32_injective", "Sb.C05.detect_in_field",
     "Sb.C05.crc_of_corrupted",
-            "Sb.C05.detect_window_after_field", "Sb.C05.detect_byte_after_field", "Sb.C05.detect_two_bits_after_field", "Sb.C05.generator_order",
+            "Sb.C05.detect_window_after_field", "Sb.C05.detect_byte_after_field", "Sb.C05.detect_two_bits_after_field", "Sb.C05.detect_field_bit_and_data_bit", "Sb.C05.generator_order",
             "Sb.Proofs.crc_window4", "Sb.Proofs.crc_window_changes", "Sb.Proofs.no_small_period", "Sb.Proofs.sqTab_step", "Sb.Proofs.app_matOf"]
 RULE = ("crcupd: all 256 single bytes from crc 0 (= all table entries) and from seeded crcs, seeded strings with every split point "
         "(short) / seeded split points (long, lengths around multiples of 256); facc: valid checksummed files of lengths "
